@@ -347,7 +347,16 @@ func (w *world) treeObs(tbl tblSet, path np.Path) (coq string, shape string) {
 		head, headOK = w.literalValue(form.Head)
 		tbl.add(head)
 	}
-	coq = App("mkTree", List(kinds), Nat(leafTo), List(pieces), Nat(upto), leafType, Nat(cfrom), Nat(cto), optBytes(head, headOK))
+	leafFrom, leafVal := 0, ""
+	if len(path) > 0 {
+		leafFrom = path[0].Range().From
+		if pn, ok := path[0].(*parse.Primary); ok {
+			leafVal = pn.Value
+			tbl.add(leafVal)
+		}
+	}
+	coq = App("mkTree", List(kinds), Nat(leafTo), List(pieces), Nat(upto), leafType, Nat(cfrom), Nat(cto), optBytes(head, headOK),
+		Nat(leafFrom), Str(leafVal))
 	return coq, shape
 }
 
@@ -756,12 +765,24 @@ func (w *world) oneCase(c *reg.Ctx, ev *eval.Evaler, t template) {
 	isVarCtx := res != nil && res.Name == "variable"
 	isFileCtx := res == nil || res.Name == "argument" || res.Name == "redir"
 	typedValue := value
+	varNs := ""
 	if isVarCtx {
 		// the typed name seed: the variable primary's text after the sigil and namespace
 		if pn, ok := path[0].(*parse.Primary); ok {
-			_, qname := eval.SplitSigil(pn.Value)
-			_, typedValue = eval.SplitIncompleteQNameNs(qname)
+			qname := strings.TrimPrefix(pn.Value, "@")
+			varNs = qname[:strings.LastIndexByte(qname, ':')+1]
+			typedValue = qname[len(varNs):]
 		}
+	}
+	// variable completion in the global scope: the names in scope are an input of the model
+	varModelled := isVarCtx && (varNs == "" || varNs == ":")
+	if varModelled {
+		var names []string
+		add := func(n string) { names = append(names, Str(n)); tbl.add(n) }
+		ev.Global().IterateKeysString(add)
+		ev.Builtin().IterateKeysString(add)
+		srcCoq = App("GVars", List(names))
+		d.Src = fmt.Sprintf("%d variable names in scope", len(names))
 	}
 	if isFileCtx && fg != nil {
 		srcCoq = App("GFixed", List(fg.coq))
@@ -780,6 +801,18 @@ func (w *world) oneCase(c *reg.Ctx, ev *eval.Evaler, t template) {
 	}
 
 	class := t.kind + "/" + wordKind
+	if len(path) > 0 {
+		if pn, ok := path[0].(*parse.Primary); ok && pn.Type == parse.Variable {
+			switch {
+			case strings.HasPrefix(pn.Value, "@"):
+				// candidates that need quoting cannot be written after the explode sigil
+				class = "variable-quoted-name-after-sigil"
+			case strings.HasPrefix(pn.Value, ":"):
+				// the empty namespace prefix is no longer valid syntax for a global variable
+				class = "variable-colon-namespace"
+			}
+		}
+	}
 	if sep, ok := pathLeafSep(path); ok {
 		txt := parse.SourceText(sep)
 		if i := strings.LastIndexByte(txt, '#'); i >= 0 && !strings.Contains(txt[i:], "\n") {
@@ -817,16 +850,16 @@ func (w *world) oneCase(c *reg.Ctx, ev *eval.Evaler, t template) {
 			}
 		}
 		limit := len(res.Items)
-		if !isFileCtx && limit > 12 {
+		if !isFileCtx && !varModelled && limit > 12 {
 			// command and variable completion offer hundreds of builtins: sample
 			limit = 12
 		}
 		stride := 1
-		if !isFileCtx && len(res.Items) > limit {
+		if !isFileCtx && !varModelled && len(res.Items) > limit {
 			stride = len(res.Items) / limit
 		}
 		kept := 0
-		for i := 0; i < len(res.Items) && (isFileCtx || kept < limit); i += stride {
+		for i := 0; i < len(res.Items) && (isFileCtx || varModelled || kept < limit); i += stride {
 			it := res.Items[i]
 			shown := textOf(it.ToShow)
 			tbl.add(it.ToInsert, shown)
@@ -841,7 +874,7 @@ func (w *world) oneCase(c *reg.Ctx, ev *eval.Evaler, t template) {
 			d.Items = append(d.Items, fmt.Sprintf("%q shown %q -> %s", it.ToInsert, shown, s))
 			kept++
 		}
-		if !isFileCtx {
+		if !isFileCtx && !varModelled {
 			// sampled: the model abstains on these contexts anyway
 			srcCoq = "GNotModelled"
 		}
@@ -934,7 +967,7 @@ func run(c *reg.Ctx) {
 			w.oneCase(c, ev, pickTemplate(c, forced))
 		}
 		// variable completion in the same world
-		for _, vb := range []string{"echo $v", "echo $va", "echo $", "echo $@v", "put $v'", "echo a$v"} {
+		for _, vb := range []string{"echo $v", "echo $va", "echo $", "echo $@v", "put $v'", "echo a$v", "echo $:v", "echo $e:ext", "echo $@"} {
 			if c.Rand.Intn(3) == 0 {
 				w.oneCase(c, ev, template{vb, "", "var"})
 			}
